@@ -147,7 +147,7 @@ CLAIMS = {
         "converted and in range, else EReadError (std::sto* by their documented prefix-parsing contract); read_bool/read_integer accept exactly 0/1 resp. the integers in [min,max]; "
         "read_block(name,.,scale) reads EVERY block of that name in file order whose Q matches the scale (later assignments override, split entries are all taken, other scales and names "
         "ignored); read_scale never reads a field the header line does not have; is_at_scale = (scale~0 or |scale-Q|<0.01).  Two obligations failed on the pinned tree with replayed "
-        "counterexamples (tokens with trailing characters; out-of-range float->int conversion) and were repaired by fix: commits.  FILL LAYER: fill_slha, fill_gm2calc and fill(SM | Gauge_basis | Mass_basis | Config_options) read exactly the documented blocks, each through the documented tuple processor into the documented target or matrix parameter; HMIX, AE, AU, AD, MSOFT with the scale of the HMIX header, everything else without a scale; Mu, B mu = mA^2 tb/(1+tb^2), the scale and alpha (only if positive) are stored as documented; the Wolfenstein parameters reach set_ckm_from_wolfenstein in the documented order.",
+        "counterexamples (tokens with trailing characters; out-of-range float->int conversion) and were repaired by fix: commits.  FILL LAYER: fill_slha, fill_gm2calc and fill(SM | Gauge_basis | Mass_basis | Config_options) read exactly the documented blocks, each through the documented tuple processor into the documented target or matrix parameter; HMIX, AE, AU, AD, MSOFT with the scale of the HMIX header, everything else without a scale; Mu, B mu = mA^2 tb/(1+tb^2), the scale and alpha (only if positive) are stored as documented; the Wolfenstein parameters reach set_ckm_from_wolfenstein in the documented order.  BOUNDED (not proved): the real program on the three shipped inputs extended by a foreign block whose name has the name of a read block as a proper prefix gives the result of the unextended input (the assumed look-up contract of SLHAea exercised on the real code).",
    note=NOTE_COMMON + "SLHAea (tokenizer, comments, whitespace, block-name case folding, ordered containers) enters by an assumed contract: layout independence below the (block,key)->value level is "
         "SLHAea's and is not claimed; block layouts are explored as representative structures with symbolic values, not for all files.",
    technique="effect contracts by symbolic execution of extracted readers + z3; library containers by assumed (Python-modelled) contracts; exception-effect inference", design='5 C13'),
@@ -173,7 +173,7 @@ CLAIMS = {
         "tan beta, vd) when force-output is off and emits exactly the matching WARNING when it is on, nothing otherwise; check_problems maps a flagged tachyon to EPhysicalProblem and "
         "negative soft masses / massless chargino to EInvalidInput unless force-output; THDM set_basis (mass and gauge basis) likewise for mh>mH, tan beta<=0, |sin(beta-alpha)|>1, "
         "negative masses and tachyons; int_to_cpp_yukawa_type is the identity on 1..6 and throws ESetupError otherwise; the monitored MSSM sectors flag a tachyon exactly when an "
-        "eigenvalue is negative; MSSMNoFV_setup::run returns failure exactly when a problem is flagged and print_error emits a diagnostic for every output format.  THDM input: the program builds the model from the mass basis iff some of (mh, mH, mA, mH+, sin(beta-alpha)) is non-zero and lambda_1..5 are all zero, from the gauge basis iff the converse holds, and refuses every other input (undecidable basis).",
+        "eigenvalue is negative; MSSMNoFV_setup::run returns failure exactly when a problem is flagged and print_error emits a diagnostic for every output format.  THDM input: the program builds the model from the mass basis iff some of (mh, mH, mA, mH+, sin(beta-alpha)) is non-zero and lambda_1..5 are all zero, from the gauge basis iff the converse holds, and refuses every other input (undecidable basis).  THDM sectors hh, Ah, Hm: for any symmetric 2x2 mass matrix a tachyon is flagged exactly when SOME eigenvalue is negative (whatever its position in the solver's order), under the sector's name, and the stored masses are sqrt|w_i|.",
    note=NOTE_COMMON + "'infinite tan(beta)' and 'result is finite' are IEEE notions outside back end B (C11/C18 territory); the THDM spectrum calculation and validate() enter set_basis by contract; "
         "main()'s try/catch is covered through print_error and the setup classes, command-line parsing is not modelled.",
    technique="exception/diagnostic effects by symbolic path exploration of the extracted real methods + z3", design='5 C16'),
